@@ -1,5 +1,6 @@
 import RtcVerif.Model.C11
 import RtcVerif.Model.C11Csv
+import RtcVerif.Model.C11Bin
 import RtcVerif.Proofs.C11Lemmas
 import RtcVerif.Proofs.C11Roundtrip
 import RtcVerif.Proofs.C11Neq
@@ -89,6 +90,60 @@ theorem C11_miss_collision_witness :
   decide +kernel
 
 /-! ## series shorter than the global range -/
+
+/-! ### third-party binary files: missing samples stored as float32(missVal) -/
+
+/-- **Binary: missing stays missing, whatever the missVal.**  A third-party writer stores a missing
+    sample as the header's missVal converted to the storage type (`r32 miss`, e.g. float32(-999.9),
+    which differs from -999.9).  Because the reader compares in the storage type
+    (`missStored r32 true miss = r32 miss`), every missing sample comes back as NaN and every other
+    sample as its stored value, for every conversion `r32`, every missVal (representable or not) and
+    every pattern of missing samples, provided no real sample collides with the missVal in the
+    storage type (the PI convention, cf. `C11_miss_collision_witness`). -/
+theorem C11_binary_missing_stays_missing (r32 : XVal → XVal) (miss : XVal) (xs : List (Option XVal))
+    (hno : ∀ x, some x ∈ xs → r32 x ≠ r32 miss) :
+    (encodeBin r32 miss xs).map (missMap (missStored r32 true miss)) = decodedBin r32 xs := by
+  unfold encodeBin decodedBin missStored
+  simp only [if_true, List.map_map]
+  apply List.map_congr_left
+  intro o ho
+  cases o with
+  | none => simp [missMap]
+  | some x => simp [missMap, hno x ho]
+
+/-- the same through the reader's per-series code (`readSeries`, to which the translated parse loop is
+    proved equal): a full-range binary series whose header announces `xs.length` samples and whose
+    missVal is taken in the storage type yields exactly the decoded samples and leaves the rest of
+    the stream for the next series -/
+theorem C11_binary_missing_through_reader (r32 : XVal → XVal) (g : Geo) (h : Hdr) (miss : XVal)
+    (xs : List (Option XVal)) (rest : List XVal)
+    (hs : h.start = g.start) (he : h.stop = g.stop)
+    (hn : nValues g h = some (xs.length : Int)) (hm : h.miss = missStored r32 true miss)
+    (hno : ∀ x, some x ∈ xs → r32 x ≠ r32 miss) :
+    readSeries g true ⟨h, [], []⟩ (some (encodeBin r32 miss xs ++ rest)) = some (decodedBin r32 xs, some rest) := by
+  have hlen : (encodeBin r32 miss xs).length = xs.length := by simp [encodeBin]
+  unfold readSeries
+  simp only [hn]
+  have h0 : ¬ ((xs.length : Int) < 0) := by omega
+  have hpf : padFront g h = 0 := by unfold padFront; simp [hs]
+  have hpb : padBack g h = 0 := by unfold padBack; simp [he]
+  simp only [h0, if_false, hpf, hpb, Int.toNat_natCast, Int.toNat_zero, lt_self_iff_false, or_self, if_true]
+  rw [← hlen, List.take_left, List.drop_left, hm, C11_binary_missing_stays_missing r32 miss xs hno]
+  simp [nans]
+
+/-- why the comparison width matters: with a conversion that does not represent -999.9 exactly,
+    comparing the stored sample with the float64 missVal does NOT recognise it (the sample stays in
+    the data as the number -999.90002…), comparing in the storage type does -/
+theorem C11_binary_miss_width_witness :
+    r32Witness (r32Witness (XVal.fin (-9999 / 10))) = r32Witness (XVal.fin (-9999 / 10)) ∧
+    missMap (XVal.fin (-9999 / 10)) (r32Witness (XVal.fin (-9999 / 10))) ≠ XVal.nan ∧
+    missMap (missStored r32Witness true (XVal.fin (-9999 / 10))) (r32Witness (XVal.fin (-9999 / 10))) = XVal.nan := by
+  decide +kernel
+
+example : readSeries ⟨some 3600, 0, 7200, [0, 3600, 7200], false, 1⟩ true
+    ⟨⟨0, none, some 3600, 0, 7200, none, missStored r32Witness true (XVal.fin (-9999 / 10)), "m"⟩, [], []⟩
+    (some (encodeBin r32Witness (XVal.fin (-9999 / 10)) [some (XVal.fin 1), none, some (XVal.fin 2)]))
+    = some ([XVal.fin 1, XVal.nan, XVal.fin 2], some []) := by decide +kernel
 
 /-- **Padding at the correct end.**  A series announced for the stamps `a..b` of a global grid of
     `N` stamps (`0 ≤ a ≤ b < N`, any positive step) is read into an array of `N` values that is
